@@ -43,7 +43,8 @@ Record tlsinfo := {
   c_cn : N;
   c_denied : bool;            (* leaf key on the deny list *)
   c_not_before : Z;
-  c_ip_error : bool;          (* VerifyIPRestrictedX509CertIP returned an error *)
+  c_ip_error : bool;          (* getUsernameIfIPRestricted returned an internal error: VerifyIPRestrictedX509CertIP
+                                 failed, or (peer inside a block and) the automation-group lookup failed *)
   c_ip_valid : bool;          (* extension present and peer inside a block *)
   c_automation : bool;        (* CN is a configured automation identity *)
   c_revoked : bool }.
@@ -59,7 +60,7 @@ Record request := {
 
 Inductive result :=
 | Admit (user : N) (level : N) (iat : Z)
-| Refuse (code : N).          (* code 0: the handler returns without writing a status *)
+| Refuse (code : N).          (* the status written by writeFailureResponse; every refusal of checkAuth writes one *)
 
 Definition token_ok (now : Z) (t : token) : bool :=
   t_signer_trusted t && t_alg_allowed t && negb (t_tampered t) && t_iss_ok t && t_aud_ok t &&
@@ -86,7 +87,7 @@ Definition check_auth (now : Z) (limiter_ok : bool) (required : N) (r : request)
   let csrf_refuse :=
     if r_get r then None
     else match r_origin r with
-         | BadOrigin => Some (Refuse 0)
+         | BadOrigin => Some (Refuse 400)   (* url.Parse error: 400 since the fix (was: nothing written, i.e. an empty 200) *)
          | CrossOrigin => Some (Refuse 401)
          | _ => None
          end in
